@@ -65,31 +65,43 @@ func probeChildren() childTables {
 			nz := reflect.Zero(reflect.PointerTo(t)).Interface().(ast.Node)
 			_ = nz.Children()
 		}()
-		// one at a time
-		single := map[string]bool{}
+		// one access path at a time (two elements in slice-valued slots)
 		for i, p := range paths {
 			inst := reflect.New(t)
-			pl := plant(inst.Elem(), p, fmt.Sprintf("SENTINEL_%s_%d", t.Name(), i))
-			row := childRow{Type: t.Name(), Path: p.String(), Leaf: p.Leaf, Planted: pl.OK, Why: pl.Why}
-			if pl.OK {
+			var pls []planted
+			pls = append(pls, plant(inst.Elem(), p, fmt.Sprintf("SENTINEL_%s_%d", t.Name(), i), 0))
+			if p.hasSlice() && pls[0].OK {
+				pls = append(pls, plant(inst.Elem(), p, fmt.Sprintf("SENTINEL_%s_%d_b", t.Name(), i), 1))
+			}
+			row := childRow{Type: t.Name(), Path: p.String(), Leaf: p.Leaf, Planted: pls[0].OK, Why: pls[0].Why}
+			if pls[0].OK {
 				kids, pan := safeChildren(inst.Interface().(ast.Node))
 				if pan != "" {
 					row.Why = "panic: " + pan
 				}
-				for _, k := range kids {
-					if pl.matches(k) {
-						row.Emitted = true
+				row.Emitted = true
+				for _, pl := range pls {
+					n := 0
+					for _, k := range kids {
+						if pl.OK && pl.matches(k) {
+							n++
+						}
+					}
+					if n != 1 {
+						row.Emitted = false
+						if n > 1 {
+							row.Why = "emitted more than once"
+						}
 					}
 				}
 			}
-			single[p.String()] = row.Emitted
 			res.Rows = append(res.Rows, row)
 		}
 		// all at once
 		inst := reflect.New(t)
 		var pls []planted
 		for i, p := range paths {
-			pls = append(pls, plant(inst.Elem(), p, fmt.Sprintf("SENTINEL_%s_%d", t.Name(), i)))
+			pls = append(pls, plant(inst.Elem(), p, fmt.Sprintf("SENTINEL_%s_%d", t.Name(), i), 0))
 		}
 		kids, _ = safeChildren(inst.Interface().(ast.Node))
 		matched := make([]bool, len(kids))
@@ -106,7 +118,7 @@ func probeChildren() childTables {
 			}
 		}
 		for j, k := range kids {
-			if !matched[j] && k != nil && !isTypedNil(k) {
+			if !matched[j] && k != nil && !isTypedNil(k) && !isZeroNode(k) {
 				ct.Extra++
 			}
 		}
@@ -331,4 +343,16 @@ func probePools(putExprCases []string) []poolRow {
 		rows = append(rows, poolRow{Pool: "ExpressionSlice", Via: "Put", Field: "*", Status: st, GetSame: got == s})
 	}
 	return rows
+}
+
+// isZeroNode: a node whose struct value is the zero value (an unset by-value slot handed out as a pointer to a copy)
+func isZeroNode(n ast.Node) bool {
+	v := reflect.ValueOf(n)
+	if v.Kind() == reflect.Ptr {
+		if v.IsNil() {
+			return true
+		}
+		v = v.Elem()
+	}
+	return v.IsZero()
 }
